@@ -12,8 +12,10 @@ Model.  The payload store is keyed by allocation id (= Python object identity of
 ghost log that records each evaluation of a materialization's upstream tree (never read by the
 engine).  `Processor.process`: `processing_is_write_once` (below) covers one `process` call on the class of
 multi-engine trees of C07 (operations in iteration engines; transfers between iteration engines and out of a SQL
-engine; materializations of single-engine subtrees and directly after a transfer); other `process` calls and
-histories of several calls are validated by correspondence and by the C10 oracle (Model/Processor.lean).
+engine; materializations of single-engine subtrees and directly after a transfer); `repeated_processing_is_write_once` extends it
+to ANY NUMBER of `process` calls on the same tree, each starting in the state the previous one left; `process` on other
+trees and histories mixing `process` with `execute` are validated by correspondence and by the C10 oracle
+(Model/Processor.lean).
 -/
 import DafRel.Lemmas.Payload
 import DafRel.Lemmas.ProcMulti
@@ -160,6 +162,22 @@ theorem processing_is_write_once (σ : Leaves) (sq0 : SqlState) (h0 : sq0.payloa
   obtain ⟨reg', _, P⟩ := process_multi_iter σ h0 t fuel matAs s reg hm hsql T hf res b s' h
   exact ⟨P.keep, P.newp, P.inv.sq.trans T.sq.symm⟩
 
+/-- **Any number of `process` calls are write-once** (`ProcRuns`: each call starts in the state the previous one left):
+after EVERY call of the sequence, every payload that was in the store before the first call is still there - the same
+object -, payloads have only been added on Materializations of the input tree or on nodes the Processor created since
+then, and nothing was attached on the database side. -/
+theorem repeated_processing_is_write_once (σ : Leaves) (sq0 : SqlState) (h0 : sq0.payload 0 = none) (t : Rel)
+    (fuel : Nat) (hm : t.MultiIter) (hsql : t.SqlSrcOK σ sq0) (hf : t.size ≤ fuel)
+    (runs : List (Res × ProcState)) (s : ProcState) (reg : Nat → Option (List Row)) (T : TreeInv σ reg sq0 t s)
+    (hruns : ProcRuns σ fuel t s runs) :
+    ∀ x, x ∈ runs →
+      (∀ o p, s.st.payload o = some p → x.2.st.payload o = some p) ∧
+      (∀ o, (x.2.st.payload o).isSome = true → (s.st.payload o).isSome = true ∨ o ∈ t.matOids ∨ s.nextTemp ≤ o) ∧
+      x.2.sq = s.sq := by
+  intro x hx
+  obtain ⟨k, n, q, _⟩ := process_repeatedly_write_once σ h0 t fuel hm hsql hf runs s reg T hruns x hx
+  exact ⟨k, n, q⟩
+
 /-- The empty store is a valid starting point. -/
 theorem evalsOK_empty : EvalsOK {} := by
   refine ⟨List.nodup_nil, ?_⟩
@@ -187,5 +205,11 @@ example : TreeInv (fun _ => []) (fun o => if o = 5 then some [] else none) {}
     ⟨by decide, trivial⟩, StoreOK_empty _ _, rfl, ⟨rfl, rfl⟩, fun _ _ => rfl, fun _ _ => rfl,
     ⟨by simp [Rel.matOids], trivial⟩, (fun o ho => by simp [Rel.matOids] at ho; omega), by decide⟩, rfl,
     Or.inl ⟨rfl, rfl⟩⟩
+
+/-- `ProcRuns` of `repeated_processing_is_write_once` is satisfiable from that very state: two consecutive `process`
+calls on that tree succeed in the model -/
+example : ∃ runs, ProcRuns (fun _ => []) 5 (Rel.mat 5 "m" (.leaf 1 ⟨1, .iter⟩ [] "L" 0 none true 0))
+    { st := {}, sq := {} } runs ∧ runs.length = 2 :=
+  ⟨[_, _], ProcRuns.cons (b := _) rfl (ProcRuns.cons (b := _) rfl (ProcRuns.nil _)), rfl⟩
 
 end DafRel.Props.C10
